@@ -213,6 +213,10 @@ class Context:
                 #       and their related description.
                 failed_processes.update({process for process in status.running_processes()
                                          if process.invalidate_identifier(status.identifier)})
+                # the processes that were STOPPING on the lost Supvisors instance are not running there anymore
+                # NOTE: they are not subject to a running failure strategy
+                for process in status.processes.values():
+                    process.invalidate_identifier(status.identifier)
         # trigger the corresponding Supvisors events
         self.publish_process_failures(failed_processes)
         #  return the identifiers of all invalidated Supvisors instances and the processes declared in failure
